@@ -476,6 +476,35 @@ func init() {
 		return nil
 	}
 
+	// ---- sync.Pool: a LIFO free list per pool (one valid behaviour of the real pool: single P, no GC) ----
+	intrinsics["(*sync.Pool).Get"] = func(e *Exec, fn *ssa.Function, a []Value, c *Frame) Value {
+		k := ptrKey(a[0])
+		if st := e.pools[k]; len(st) > 0 {
+			v := st[len(st)-1]
+			e.pools[k] = st[:len(st)-1]
+			return v
+		}
+		sv, ok := e.load(a[0].(PtrV)).(StructV)
+		if !ok {
+			e.unsupported("sync.Pool value")
+		}
+		st := fn.Signature.Recv().Type().(*types.Pointer).Elem().Underlying().(*types.Struct)
+		for i := 0; i < st.NumFields(); i++ {
+			if st.Field(i).Name() == "New" {
+				if _, isNil := sv[i].(NilFunc); isNil || sv[i] == nil {
+					return IfaceV{}
+				}
+				return e.callFunction(sv[i], nil)
+			}
+		}
+		return IfaceV{}
+	}
+	intrinsics["(*sync.Pool).Put"] = func(e *Exec, fn *ssa.Function, a []Value, c *Frame) Value {
+		k := ptrKey(a[0])
+		e.pools[k] = append(e.pools[k], a[1])
+		return nil
+	}
+
 	// ---- sync/atomic (sequential) ----
 	for _, ty := range []string{"Int32", "Int64", "Uint32", "Uint64", "Uintptr"} {
 		intrinsics["sync/atomic.Load"+ty] = func(e *Exec, fn *ssa.Function, a []Value, c *Frame) Value {
